@@ -34,3 +34,4 @@ def run(ctx):
     ctx.run("C09.PER-CALL-INPUTS", "R-RESET", par.c09_per_call_inputs)
     ctx.run("C04.FLAGS", "R-ORDER", par.c04_flags)
     ctx.run("C04.CALLID", "R-LOCK/R-ORDER", par.c04_callid)
+    ctx.run("C04.RESET", "R-RESET", par.c04_reset)
